@@ -20,6 +20,7 @@ def eval_failures(requires: Sequence[str], check_fn: str, cases: Sequence[str], 
     n = len(cases)
     if n == 0:
         return [], ""
+    core.ensure_built(requires)
     size = max(1, -(-n // nshards))
     procs = []
     for k in range(0, n, size):
